@@ -133,23 +133,66 @@ func checkC08(w *World, r *Report) {
 		a := w.Method("parse", "Tree", "argument")
 		afd, _ := w.FuncDecl(a)
 		okU := false
-		ast.Inspect(afd.Body, func(n ast.Node) bool {
-			cc, ok := n.(*ast.CaseClause)
-			if !ok || len(cc.List) != 1 {
-				return true
+		if uf := w.SSAFunc(a); uf != nil && len(ssaLoops(uf)) == 0 {
+			// the exit taken when the token ahead is a plain string returns that token's text
+			itemString, _ := pkgConstInt(w, "parse", "itemString")
+			usym := NewSym(w)
+			nns, pns := w.SSAFunc(w.Method("parse", "Tree", "nextNonSpace")), w.SSAFunc(w.Method("parse", "Tree", "peekNonSpace"))
+			isToken := func(v ssa.Value) bool {
+				c, ok := v.(*ssa.Call)
+				return ok && (c.Call.StaticCallee() == nns || c.Call.StaticCallee() == pns)
 			}
-			if o := objOfIdent(p, cc.List[0]); o == nil || nm(o) != "itemString" {
-				return true
-			}
-			for _, s := range cc.Body {
-				if as, ok := s.(*ast.AssignStmt); ok && len(as.Rhs) == 1 {
-					if se, ok := as.Rhs[0].(*ast.SelectorExpr); ok && se.Sel.Name == "val" {
-						okU = true
+			tokenText := func(v ssa.Value) bool {
+				if loadedFieldName(v) != "val" {
+					return false
+				}
+				switch x := v.(type) {
+				case *ssa.Field:
+					return isToken(x.X)
+				case *ssa.UnOp:
+					fa, _ := x.X.(*ssa.FieldAddr)
+					cell, isA := fa.X.(*ssa.Alloc)
+					if !isA {
+						return false
 					}
+					n := 0
+					for _, ref := range *cell.Referrers() {
+						if st, ok := ref.(*ssa.Store); ok && st.Addr == ssa.Value(cell) {
+							if !isToken(st.Val) {
+								return false
+							}
+							n++
+						}
+					}
+					return n > 0
+				}
+				return false
+			}
+			nStr := 0
+			okU = true
+			for _, row := range usym.retTable(uf, 0) {
+				hit, decided := pcEvalFree(row.cond, func(at *pcAtom) (bool, bool) {
+					if bo, ok := at.v.(*ssa.BinOp); ok && at.subj != "" {
+						for _, side := range []ssa.Value{bo.X, bo.Y} {
+							if loadedFieldName(side) == "typ" {
+								return at.set.contains(itemString), true
+							}
+						}
+					}
+					return false, false
+				})
+				if decided && !hit {
+					continue
+				}
+				nStr++
+				if !decided || !tokenText(row.val) {
+					okU = false
 				}
 			}
-			return len(allCallsTo(p, cc, tw)) == 0
-		})
+			if nStr == 0 {
+				okU = false
+			}
+		}
 		r.Check(okU, "R08.3", "unquoted piece", afd.Pos(), "token text verbatim", "an unquoted argument is not the token text itself")
 	})
 
